@@ -4,6 +4,7 @@
  *   nb    : consumer 0 polls with svt_get_full_object_non_blocking (only meaningful with cons=1)
  *   live  : consumers call svt_object_inc_live_count(w,2) and release twice (object must stay out until the 2nd)
  *   dis   : consumers disable release, release, enable, release
+ *   share : each consumer shares every object with a helper thread (live count 2); both release it concurrently
  *   early : an extra thread calls svt_shutdown_process at an arbitrary point (requires prod*m <= objs)
  * Explores every interleaving (explicit-state mode of sched.c) and prints one JSON line.
  */
@@ -15,6 +16,8 @@
 #include "EbSystemResourceManager.h"
 #include "vsched.h"
 #include "vutil.h"
+#include "EbThreads.h"
+#define MAXP_ 4
 
 /* ---- arena: every allocation made while arena_on is served from here, so that the SRM's whole state
  * lives at fixed addresses and can be hashed as raw memory */
@@ -44,7 +47,9 @@ void __wrap_free(void *p) {
 }
 
 /* ---- parameters and monitor state (hashed) */
-static int OBJS = 2, PROD = 1, CONS = 1, M = 2, NB = 0, LIVE = 0, DIS = 0, EARLY = 0;
+static int OBJS = 2, PROD = 1, CONS = 1, M = 2, NB = 0, LIVE = 0, DIS = 0, EARLY = 0, SHARE = 0;
+static EbHandle share_sem[MAXP_];
+static EbObjectWrapper *share_w[MAXP_];
 enum { ST_POOL, ST_PROD, ST_POSTED, ST_CONS };
 #define MAXO 8
 #define MAXP 4
@@ -126,7 +131,15 @@ static void *consumer(void *a) {
         mon.next_expected[c][p] = k + 1;
         mon.state[i] = ST_CONS; mon.holder[i] = c;
         mon.outcome = mon.outcome * 1000003u + (uint64_t)(c * 10000 + v + 1);
-        if (LIVE) {
+        if (SHARE) {
+            /* two holders of the same object release it concurrently: this consumer and its helper thread */
+            svt_object_inc_live_count(w, 2);
+            share_w[c] = w;
+            mon.state[i] = ST_POOL; mon.holder[i] = -1; mon.consumed++; mon.cons_n[c]++; /* from now on either release may be the last one */
+            svt_post_semaphore(share_sem[c]);
+            svt_release_object(w);
+            svt_block_on_semaphore(share_sem[MAXP_ / 2 + c]); /* helper done with this object */
+        } else if (LIVE) {
             svt_object_inc_live_count(w, 2);
             svt_release_object(w);
             if (mon.state[i] != ST_CONS || mon.holder[i] != c) FAIL("object %d left consumer %d before its last reference was released", i, c);
@@ -148,6 +161,16 @@ static void *consumer(void *a) {
     return NULL;
 }
 
+static void *helper(void *a) {
+    int c = (int)(intptr_t)a;
+    for (int k = 0; k < PROD * M; k++) {
+        svt_block_on_semaphore(share_sem[c]);
+        if (mon.cons_done[c]) break;
+        svt_release_object(share_w[c]);
+        svt_post_semaphore(share_sem[MAXP_ / 2 + c]);
+    }
+    return NULL;
+}
 static void *shutter(void *a) { (void)a; mon.shutdown_called = 1; svt_shutdown_process(res); return NULL; }
 
 static void body(void *arg) {
@@ -165,12 +188,14 @@ static void body(void *arg) {
     e = svt_system_resource_ctor(r, (uint32_t)OBJS, (uint32_t)PROD, (uint32_t)CONS, obj_ctor, NULL, obj_dtor);
     if (e != EB_ErrorNone) FAIL("svt_system_resource_ctor failed %x", e);
     res = r;
+    if (SHARE) for (int c = 0; c < CONS; c++) { share_sem[c] = svt_create_semaphore(0, 100); share_sem[MAXP_ / 2 + c] = svt_create_semaphore(0, 100); share_w[c] = NULL; }
     for (int i = 0; i < OBJS; i++) { wr[i] = res->wrapper_ptr_pool[i]; mon.state[i] = ST_POOL; mon.holder[i] = -1; }
     arena_on = 0;
     vs_hash_region(arena, arena_used);
     vs_hash_region(&mon, sizeof mon);
-    void *hp[MAXP] = {0}, *hc[MAXP] = {0}, *hs = NULL;
+    void *hp[MAXP] = {0}, *hc[MAXP] = {0}, *hh[MAXP] = {0}, *hs = NULL;
     for (int c = 0; c < CONS; c++) hc[c] = vs_thread_create(consumer, (void *)(intptr_t)c);
+    if (SHARE) for (int c = 0; c < CONS; c++) hh[c] = vs_thread_create(helper, (void *)(intptr_t)c);
     for (int p = 0; p < PROD; p++) hp[p] = vs_thread_create(producer, (void *)(intptr_t)p);
     if (EARLY) hs = vs_thread_create(shutter, NULL);
     for (int p = 0; p < PROD; p++) vs_thread_join(hp[p]);
@@ -187,6 +212,7 @@ static void body(void *arg) {
         svt_shutdown_process(res);
     } else vs_thread_join(hs);
     if (!NB) for (int c = 0; c < CONS; c++) vs_thread_join(hc[c]);
+    if (SHARE) for (int c = 0; c < CONS; c++) { svt_post_semaphore(share_sem[c]); vs_thread_join(hh[c]); }
     /* conservation: every wrapper is either in the empty queue / a producer fifo, or (early shutdown) still posted */
     int in_pool = (int)res->empty_queue->object_queue->current_count;
     for (int p = 0; p < PROD; p++) {
@@ -212,7 +238,7 @@ int main(int argc, char **argv) {
         if (!strncmp(argv[i], "objs=", 5)) OBJS = v; else if (!strncmp(argv[i], "prod=", 5)) PROD = v;
         else if (!strncmp(argv[i], "cons=", 5)) CONS = v; else if (!strncmp(argv[i], "m=", 2)) M = v;
         else if (!strncmp(argv[i], "nb=", 3)) NB = v; else if (!strncmp(argv[i], "live=", 5)) LIVE = v;
-        else if (!strncmp(argv[i], "dis=", 4)) DIS = v; else if (!strncmp(argv[i], "early=", 6)) EARLY = v;
+        else if (!strncmp(argv[i], "dis=", 4)) DIS = v; else if (!strncmp(argv[i], "early=", 6)) EARLY = v; else if (!strncmp(argv[i], "share=", 6)) SHARE = v;
         else if (!strncmp(argv[i], "replay=", 7)) replay = eq + 1; else if (!strncmp(argv[i], "deadline=", 9)) dl = atof(eq + 1);
         else if (!strncmp(argv[i], "workers=", 8)) workers = v;
     }
